@@ -810,6 +810,43 @@ fn run_p256_trunc(inp: &[u8]) -> Result<(), String> {
         return chk(got == want, || format!("prepare_truncate({}) = {:?}, documented result {:?}", hex(&sig), got.map(|x| hex(&x)), want.map(|x| hex(&x))));
     }
 
+    if variant == 1 && par & 1 == 1 {
+        // second half of defect D9: the only candidate the search can meet is s0 - j*2^n, which wraps modulo the order: the
+        // rebuilt value is valid for the ordinary verifier but its low bits are not the received ones. Prefix (r, s0) with a
+        // key under which (r, j*2^n - s0) - hence also (r, s0 - j*2^n mod n) - is valid; whatever is returned must be
+        // accepted by verify_hash AND extend the received prefix.
+        let nb = 256 - rm as u32;
+        let j = bi(1 + (par2 % 16.min(1usize << (rm - 5))) as i64);
+        let s0 = le_to_int(sb) % pow2(nb - 1);
+        let sv = &j * pow2(nb) - &s0;
+        if sv.sign() != Sign::Plus || sv >= c.n { return Ok(()); }
+        let mut hle = hv.to_vec(); hle.reverse();
+        let h = Scalar::decode_reduce(&hle);
+        let k0 = { let k = Scalar::decode_reduce(kb); if k.iszero() != 0 { Scalar::ONE } else { k } };
+        for k in [k0, -k0] {
+            let R = Point::mulgen(&k);
+            let r_int = be_to_int(&R.encode_compressed()[1..]) % &c.n;
+            let r = Scalar::decode_reduce(&int_to_le(&r_int, 32));
+            if r.iszero() != 0 { continue; }
+            let Q = (R * Scalar::decode_reduce(&int_to_le(&sv, 32)) - Point::mulgen(&h)) * (Scalar::ONE / r);
+            if Q.isneutral() != 0 { continue; }
+            let pk = PublicKey::decode(&Q.encode_compressed()).ok_or("constructed public key does not decode")?;
+            let mut full = int_to_be(&r_int, 32); full.extend_from_slice(&int_to_be(&sv, 32));
+            if !pk.verify_hash(&full, hv) { continue; }
+            let mut tsig = int_to_be(&r_int, 32); tsig.extend_from_slice(&int_to_le(&s0, 32));
+            overwrite_tail(&mut tsig, rm, garbage);
+            if let Some(s2) = pk.verify_trunc_hash(&tsig, rm, hv) {
+                let desc = || format!("rm {} pk {} truncated {} hash {} (candidate s0 - {}*2^{} wraps modulo the order)", rm, hex(&pk.encode_compressed()), hex(&tsig), hex(hv), j, nb);
+                chk(pk.verify_hash(&s2, hv), || format!("verify_trunc_hash returned {} which the ordinary verifier rejects; {}", hex(&s2), desc()))?;
+                let mut sle = s2[32..].to_vec(); sle.reverse();
+                let mut a = s2[..32].to_vec(); a.extend_from_slice(&sle);
+                let mut b = tsig.clone();
+                overwrite_tail(&mut a, rm, 0); overwrite_tail(&mut b, rm, 0);
+                chk(a == b, || format!("verify_trunc_hash returned {} which is not a completion of the received prefix; {}", hex(&s2), desc()))?;
+            }
+        }
+        return Ok(());
+    }
     if variant == 1 {
         // defect D9: h*G + r*Q is the point at infinity (Q = -(h/r)*G) and the received value of s is zero: (r, 0) is not a
         // valid signature, nothing that verify_hash rejects may be returned
@@ -917,6 +954,8 @@ fn sp_p256_trunc_ctl() -> Vec<Vec<u8>> {
     for k in [3u8, 5, 7] { for p in 0..3u8 { v.push(vec![3, 1, 2, 3, 4, k, p, 0]); } }
     // h*G + r*Q at infinity, received s = 0 (defect D9)
     for rm in [8u8, 13, 16, 24, 32] { v.push(vec![sel_of(rm), 0xFF, 0xFF, 0xFF, 0xFF, 1, 0, 0]); v.push(vec![sel_of(rm), 0, 0, 0, 0, 1, 0, 0]); }
+    // the only matching candidate wraps modulo the order (defect D9, second half)
+    for rm in [8u8, 9, 13, 16, 20, 24, 32] { for j in [0u8, 1, 2, 7, 15] { v.push(vec![sel_of(rm), 0xFF, 0xFF, 0xFF, 0xFF, 1, 1, j]); v.push(vec![sel_of(rm), 0, 0, 0, 0, 1, 3, j]); } }
     v.push(vec![0, 0, 0, 0, 0, 6, 0, 0]);
     v
 }
